@@ -180,6 +180,44 @@ def check_dofs_structure(ctx, mesh, kind, dim, elem, dofs, rec, desc):
     return True
 
 
+_LOC_OK = ("ElementTriRT1", "ElementTetRT1", "ElementQuadRT1", "ElementHexRT1", "ElementTriN1", "ElementTetN1",
+           "ElementQuadN1")
+
+
+def _locs_claimed(r):
+    return bool(r.nodal or r.name.split("(")[0] in _LOC_OK or r.name.startswith(("DG(", "Vector(")))
+
+
+def composite_reference_locations(elem, rd, dim):
+    """Reference locations of a composite element's local functions from the components' own tables and the
+    documented row order: vertex by vertex, then edge by edge (3-D), facet by facet, interior; within an entity
+    component by component."""
+    nedges = len(rd.edges) if dim == 3 else 0
+    nfac = rd.nfacets if dim >= 2 else 0
+    comps = []
+    for e in elem.elems:
+        L = np.asarray(e.doflocs, dtype=float)
+        ne = e.edge_dofs if dim == 3 else 0
+        nf = e.facet_dofs if dim >= 2 else 0
+        o1 = rd.nnodes * e.nodal_dofs
+        o2 = o1 + nedges * ne
+        o3 = o2 + nfac * nf
+        comps.append((L, e.nodal_dofs, ne, nf, e.interior_dofs, o1, o2, o3))
+    rows = []
+    for v in range(rd.nnodes):
+        for L, nn, ne, nf, ni, o1, o2, o3 in comps:
+            rows += [L[v * nn + r] for r in range(nn)]
+    for s in range(nedges):
+        for L, nn, ne, nf, ni, o1, o2, o3 in comps:
+            rows += [L[o1 + s * ne + r] for r in range(ne)]
+    for s in range(nfac):
+        for L, nn, ne, nf, ni, o1, o2, o3 in comps:
+            rows += [L[o2 + s * nf + r] for r in range(nf)]
+    for L, nn, ne, nf, ni, o1, o2, o3 in comps:
+        rows += [L[o3 + r] for r in range(ni)]
+    return np.array(rows)
+
+
 def check_doflocs(ctx, mc, rec, elem, basis):
     mesh, kind = mc.mesh, mc.kind
     ed = np.asarray(basis.dofs.element_dofs)
@@ -187,12 +225,21 @@ def check_doflocs(ctx, mc, rec, elem, basis):
               elem.interior_dofs)
     tag = {"mesh": type(mesh).__name__, "elem": rec.name, "desc": mc.desc}
     mk = lambda what: f"{what}:{rec.name.split('(')[0]}"
+    Lmodel = None
+    if rec.name.startswith("Composite(") and hasattr(elem, "elems") and mc.dim >= 2:
+        from .c03 import component_records
+        if all(_locs_claimed(r) and hasattr(e, "doflocs") and not hasattr(e, "elems")
+               for r, e in zip(component_records(rec), elem.elems)) and len(component_records(rec)) == len(elem.elems):
+            Lmodel = composite_reference_locations(elem, mesh.elem.refdom, mc.dim)
+            Le = np.asarray(elem.doflocs, dtype=float)
+            ctx.check("doflocs-agree", Le.shape == Lmodel.shape and np.array_equal(np.isnan(Le), np.isnan(Lmodel))
+                      and np.allclose(np.nan_to_num(Le), np.nan_to_num(Lmodel), atol=1e-14),
+                      mech="composite-reference-locations-not-in-row-order", **tag)
+            ctx.reached("composite-doflocs")
     # DOF locations, evaluated from every cell (not only the last writer)
-    if rec.nodal or rec.name.split("(")[0] in ("ElementTriRT1", "ElementTetRT1", "ElementQuadRT1", "ElementHexRT1",
-                                               "ElementTriN1", "ElementTetN1", "ElementQuadN1") or \
-            rec.name.startswith(("DG(", "Vector(")):
+    if _locs_claimed(rec) or Lmodel is not None:
         if hasattr(basis, "doflocs") and hasattr(elem, "doflocs"):
-            L = np.asarray(elem.doflocs, dtype=float)  # (Nbfun, dim)
+            L = np.asarray(elem.doflocs, dtype=float) if Lmodel is None else Lmodel  # (Nbfun, dim)
             if L.shape[0] == ed.shape[0]:
                 if mc.order == 1:
                     X = GEO.map_points(kind, np.asarray(mesh.p), np.asarray(mesh.t), L.T)  # (dim, nt, Nbfun)
